@@ -6,8 +6,8 @@ and of all checks."""
 import json, os, subprocess, sys, tempfile, shutil
 HERE = os.path.dirname(os.path.dirname(os.path.abspath(__file__)))
 ids = sys.argv[1:] or sorted(os.listdir(os.path.join(HERE, "seeded")))
-wt = tempfile.mkdtemp(prefix="seedwt-"); os.rmdir(wt)
-subprocess.check_call(["git", "-C", "/repo", "worktree", "add", "-q", "--detach", wt, "HEAD"])
+wt = tempfile.mkdtemp(prefix="seedwt-")
+shutil.copytree("/repo/mako", os.path.join(wt, "mako"), ignore=shutil.ignore_patterns("__pycache__"))
 try:
     for sid in ids:
         d = os.path.join(HERE, "seeded", sid)
@@ -15,7 +15,7 @@ try:
             continue
         meta = json.load(open(os.path.join(d, "meta.json")))
         prop = meta["property"]
-        r = subprocess.run(["git", "-C", wt, "apply", os.path.join(d, "patch.diff")], capture_output=True, text=True)
+        r = subprocess.run(["git", "apply", os.path.join(d, "patch.diff")], cwd=wt, capture_output=True, text=True)
         if r.returncode != 0:
             print(sid, "PATCH-DOES-NOT-APPLY"); continue
         env = dict(os.environ, VERIF_REPO=wt, VERIF_EVIDENCE_DIR=os.path.join(wt, "_ev"), VERIF_OUT_DIR=os.path.join(wt, "_vout"))
@@ -27,7 +27,6 @@ try:
         meta["now"] = dict(property_check_rc=a.returncode, property_rules_fired=fired, all_rules_fired=allf, analysis_errors=sorted(set(errs)))
         json.dump(meta, open(os.path.join(d, "meta.json"), "w"), indent=1)
         print("%-10s rc=%d own=%s all=%s%s" % (sid, a.returncode, fired, [x for x in allf if x not in fired], "  ERR=%d" % len(set(errs)) if errs else ""))
-        subprocess.check_call(["git", "-C", wt, "checkout", "-q", "--", "."])
+        shutil.rmtree(os.path.join(wt, "mako")); shutil.copytree("/repo/mako", os.path.join(wt, "mako"), ignore=shutil.ignore_patterns("__pycache__"))
 finally:
-    subprocess.run(["git", "-C", "/repo", "worktree", "remove", "--force", wt])
     shutil.rmtree(wt, ignore_errors=True)
